@@ -350,7 +350,7 @@ func main() {
 						maxDepth = len(np)
 					}
 					frontier = append(frontier, st{m, np})
-					if states%5000 == 1 {
+					if states%1000 == 2 {
 						c.Sample(map[string]interface{}{"impl": cf.impl, "ops": fmt.Sprint(np), "state": k})
 					}
 				}
